@@ -69,7 +69,7 @@ fn boudot_estimates(rp: &Value, a: &Integer, b: &Integer) -> Vec<(String, Intege
 pub fn run<CS: Suite>(env: &Env)
 where CL03<CS>: Scheme<PubKey = CL03PublicKey, PrivKey = CL03SecretKey>, CS::HashAlg: sha2::Digest {
     let maxn = if env.thorough() { 4 } else { 3 };
-    let w: World<CS> = World::generate(maxn);
+    let w: World<CS> = World::generate(66);
     let items = collect::<CS>(env, &w, maxn, "c19");
     env.ctx.set_rule("every honest issuance proof (all non-empty hidden subsets) and signature proof (all subsets), n <= 3 (thorough 4). S = all integer leaves of the serialized proof; Cset = every Fiat-Shamir challenge a recipient can recompute (explicit challenge / C fields, C mod 2^t, and the hashes the verifier recomputes from public data); X = every secret the prover holds that the harness knows (hidden m_i, e, s, v, commitment randomness r, and any randomness leaf that is present in the proof). For EVERY (s, c, x) in S x Cset x X and EVERY ordered pair (s, s') in S^2: |floor(s/c) - x| >= 2^64 and |floor(s/s') - x| >= 2^64; and for every pair of leaves and every pair of secrets |floor((s - s')/c) - (x - x')| >= 2^64 (shared blinding); floor(response / challenge of the same sub-proof) must not be the opening randomness of any commitment value in the proof or of the request's commitment (V != prod g_i^m_i * h^q, V != g_i^m_i * h^q over the three base families); the bit length of every response is the same (+-64 bits) whether the hidden attribute is 0, 1 or hash-sized. Additionally every embedded Boudot range proof is attacked through its proofs of square: floor(d / challenge)^2 plus the public offset, shifted by 2^T, must not land within 2^64 of the secret the range proof is about (hidden m_i, e, r). State = (proof, leaf); non-trivial = a quotient was computed against a prover secret.");
     let bound = pow2(64);
@@ -135,7 +135,7 @@ where CL03<CS>: Scheme<PubKey = CL03PublicKey, PrivKey = CL03SecretKey>, CS::Has
             for (fname, gs, h, nn) in &fams {
                 let mut acc = Integer::from(1); for i in 0..n { acc = (acc * modpow(&gs[i], &it.m[i], nn)) % nn; }
                 fixed.push((format!("prod g_i^m_i over {}", fname), acc, h.clone(), nn.clone()));
-                for i in 0..n { fixed.push((format!("g_{}^m_{} over {}", i, i, fname), modpow(&gs[i], &it.m[i], nn), h.clone(), nn.clone())); }
+                for i in (0..n).filter(|i| n <= 4 || *i == 0 || it.hidden.contains(i)) { fixed.push((format!("g_{}^m_{} over {}", i, i, fname), modpow(&gs[i], &it.m[i], nn), h.clone(), nn.clone())); }
                 for (sn, x) in &it.secrets { if sn.starts_with("signature") { for i in 0..n.min(1) { fixed.push((format!("g_{}^({}) over {}", i, sn, fname), modpow(&gs[i], x, nn), h.clone(), nn.clone())); } } }
             }
             let top = |p: &Vec<String>| p.iter().take(2).cloned().collect::<Vec<_>>();
